@@ -86,16 +86,28 @@ func (fp *FilePath) Write(b []byte) (n int, err error) {
 	return n, nil
 }
 
-// resolvedName returns the name of the folder the path leads to once "." and ".." items and separators inside an item
-// name are resolved the way ReadPath resolves them, so that the drop box and upload folder checks judge the folder a
-// request actually reaches and not the spelling of its last path item.
-func (fp *FilePath) resolvedName() string {
+// resolvedPath returns the folder the path leads to once "." and ".." items and separators inside an item name are
+// resolved the way ReadPath resolves them, so that the drop box and upload folder checks judge the folder a request
+// actually reaches and not the spelling of its path items.
+func (fp *FilePath) resolvedPath() string {
 	var subPath string
 	for _, pathItem := range fp.Items {
 		subPath = filepath.Join("/", subPath, string(pathItem.Name))
 	}
 
-	return filepath.Base(subPath)
+	return subPath
+}
+
+// anyFolderNamed reports whether the resolved path is, or lies below, a folder whose name contains s: the folders
+// inside a drop box or an upload folder belong to it.
+func (fp *FilePath) anyFolderNamed(s string) bool {
+	for _, name := range strings.Split(fp.resolvedPath(), "/") {
+		if strings.Contains(strings.ToLower(name), s) {
+			return true
+		}
+	}
+
+	return false
 }
 
 // IsDropbox checks if a FilePath matches the special drop box folder type
@@ -104,7 +116,7 @@ func (fp *FilePath) IsDropbox() bool {
 		return false
 	}
 
-	return strings.Contains(strings.ToLower(fp.resolvedName()), "drop box")
+	return fp.anyFolderNamed("drop box")
 }
 
 func (fp *FilePath) IsUploadDir() bool {
@@ -112,7 +124,7 @@ func (fp *FilePath) IsUploadDir() bool {
 		return false
 	}
 
-	return strings.Contains(strings.ToLower(fp.resolvedName()), "upload")
+	return fp.anyFolderNamed("upload")
 }
 
 func (fp *FilePath) Len() uint16 {
